@@ -598,6 +598,11 @@ func c07Run(input string) string {
 			"Issuer": `"Issuer":"did:example:another-issuer"`, "ID": `"ID":"http://example.edu/credentials/another-id"`,
 			"Id": `"Id":"http://example.edu/credentials/another-id"`, "IssuanceDate": `"IssuanceDate":"2031-01-01T19:23:24Z"`,
 			"Type": `"Type":["VerifiableCredential","AnotherCredential"]`,
+			// encoding/json folds names with Unicode simple folding: U+017F (long s) matches s, U+212A (Kelvin sign) matches k
+			"iſſuer":       `"iſſuer":"did:example:another-issuer"`,
+			"iſsuer":       `"iſsuer":{"id":"did:example:another-issuer"}`,
+			"iſſuanceDate": `"iſſuanceDate":"2031-01-01T19:23:24Z"`,
+			"ISſUER":       `"ISſUER":"did:example:another-issuer"`,
 		}[strings.TrimPrefix(mut, "addcase:")]
 		if member == "" {
 			return "bad-input"
@@ -760,7 +765,8 @@ func c07Gen(r *Rng, tier string) []string {
 				"challenge-arr", "created-arr", "proofPurpose-arr", "verificationMethod-arr", "domain-num", "challenge-num", "domain-obj", "challenge-obj"})
 		case x < 19:
 			mut = r.Pick([]string{"delproof", "proof2:foreign", "proof2:foreign", "proof2:altered", "addtype:top", "addtype:subject", "addtype:nested",
-				"addcase:Issuer", "addcase:Issuer", "addcase:ID", "addcase:Id", "addcase:IssuanceDate", "addcase:Type"})
+				"addcase:Issuer", "addcase:Issuer", "addcase:ID", "addcase:Id", "addcase:IssuanceDate", "addcase:Type",
+				"addcase:iſſuer", "addcase:iſsuer", "addcase:iſſuanceDate", "addcase:ISſUER"})
 		default:
 			mut = "sig"
 		}
